@@ -14,7 +14,8 @@
 (* threshold, advances its own cumulative counts and compares.  ApEnd      *)
 (* recomputes the interpolated area from the specification's counts with   *)
 (* exact cross-multiplied precision comparisons and a stated error bound.  *)
-(* Event "Map": aps (list of ap6), map6 -- mean over the defined APs.      *)
+(* Event "Map": aps (list of ap6), map6 -- mean over the defined APs;      *)
+(* single = each label's AP computed alone with its own threshold.         *)
 (* Event "Mono" (C08): a ladder of thresholds on fixed results.            *)
 (* Verdicts are total; a rejected bucket is reported and skipped.          *)
 (***************************************************************************)
@@ -79,7 +80,10 @@ RECURSIVE SumSeq(_, _)
 SumSeq(s, i) == IF i = 0 THEN 0 ELSE SumSeq(s, i - 1) + (IF s[i] >= 0 THEN s[i] ELSE 0)
 MapVerdict(ev) ==
   LET k == Cardinality({i \in 1..Len(ev.aps) : ev.aps[i] >= 0}) IN
-  IF k = 0 THEN (IF ev.map6 = -1 THEN "ok" ELSE "map-of-nothing-must-be-undefined")
+  \* "single": the AP of each label of the label list, computed alone with that label's own threshold
+  IF Len(ev.aps) # Len(ev.single) THEN "map-not-one-ap-per-label"
+  ELSE IF \E i \in 1..Len(ev.aps) : Abs(ev.aps[i] - ev.single[i]) > 1 THEN "map-per-label-ap-is-not-the-labels-own-ap"
+  ELSE IF k = 0 THEN (IF ev.map6 = -1 THEN "ok" ELSE "map-of-nothing-must-be-undefined")
   ELSE IF Abs(ev.map6 * k - SumSeq(ev.aps, Len(ev.aps))) > k THEN "map-mean"
   ELSE "ok"
 
